@@ -210,6 +210,7 @@ fn check(prop: &str, tier: &str, emit: Option<String>) -> i32 {
             "C15" => {
                 let mut v = cli::c15(thorough, &mut stats);
                 v.extend(cli::c15_sections(&mut stats));
+                v.extend(cli::c15_below(&mut stats));
                 v
             }
             "C14" => cli::c14(thorough, &mut stats),
@@ -545,6 +546,7 @@ fn replay(path: &str) -> i32 {
             "C15" => {
                 let mut x = cli::c15(true, &mut stats);
                 x.extend(cli::c15_sections(&mut stats));
+                x.extend(cli::c15_below(&mut stats));
                 x
             }
             "C16" => cli::c16(true, &mut stats),
